@@ -110,6 +110,25 @@ func (i *c05CapRsv) Informer() cache.SharedIndexInformer {
 	return i.cap
 }
 
+// several handlers delivered back to back, in registration order
+type c05HandlerSeq []cache.ResourceEventHandler
+
+func (q c05HandlerSeq) OnAdd(obj interface{}, isInInitialList bool) {
+	for _, h := range q {
+		h.OnAdd(obj, isInInitialList)
+	}
+}
+func (q c05HandlerSeq) OnUpdate(oldObj, newObj interface{}) {
+	for _, h := range q {
+		h.OnUpdate(oldObj, newObj)
+	}
+}
+func (q c05HandlerSeq) OnDelete(obj interface{}) {
+	for _, h := range q {
+		h.OnDelete(obj)
+	}
+}
+
 type c05Profiles struct {
 	plugins []*Plugin
 	pods    []*podEventHandler
@@ -183,11 +202,11 @@ func c05NewProfiles(t *testing.T, n int) *c05Profiles {
 	sched := &scheduler.Scheduler{Profiles: profiles}
 	before := len(capInf.handlers)
 	eventhandlers.AddScheduleEventHandler(sched, adapter, informerFactory, koordFactory, nil)
-	if len(capInf.handlers) != before+1 {
-		t.Fatalf("AddScheduleEventHandler registered %d reservation handlers, want 1", len(capInf.handlers)-before)
+	if len(capInf.handlers) == before {
+		t.Fatalf("AddScheduleEventHandler registered no reservation handler")
 	}
 	ps.deliveries = make([]cache.ResourceEventHandler, n+1)
-	ps.deliveries[0] = capInf.handlers[before]
+	ps.deliveries[0] = c05HandlerSeq(capInf.handlers[before:]) // whatever it registers is "the scheduler-wide handler"
 	for _, hd := range capInf.handlers[:before] {
 		if reh, ok := hd.(*reservationEventHandler); ok {
 			found := false
@@ -234,6 +253,12 @@ func c05Terminated(o *c05RObj) bool { return o.phase == 3 || o.phase == 4 }
 func c05Live(o *c05RObj) bool       { return o.node != 0 && (o.phase == 1 || o.phase == 2) }
 
 func c05DumpProfiles(h *vHarness, ps *c05Profiles, must map[int]int, home map[int]int) {
+	c05DumpProfilesLag(h, ps, must, home, 0)
+}
+
+// lagging = the profile (1-based) whose plugin listener has just processed events the scheduler-wide handler was already
+// past (directed stream only); a dangling entry in THAT profile is the known class `...:lagging-listener`
+func c05DumpProfilesLag(h *vHarness, ps *c05Profiles, must map[int]int, home map[int]int, lagging int) {
 	for i, pl := range ps.plugins {
 		h.Obs("prof %d", i+1)
 		c := pl.reservationCache
@@ -257,7 +282,10 @@ func c05DumpProfiles(h *vHarness, ps *c05Profiles, must map[int]int, home map[in
 		}
 		sort.Ints(us)
 		for _, u := range us {
-			if must[u] == 0 {
+			if must[u] == 0 && lagging == i+1 {
+				h.Fail("C05:profile-index-dangling:lagging-listener", "profile %d of %d: %s references reservation %d, whose Delete the scheduler-wide handler had "+
+					"already processed when this profile's plugin listener handled the earlier Update (and then its Delete)", i+1, len(ps.plugins), seen[u], u)
+			} else if must[u] == 0 {
 				h.Fail("C05:profile-index-dangling", "profile %d of %d: %s still references reservation %d, which was deleted / ended / rolled back (or never placed)",
 					i+1, len(ps.plugins), seen[u], u)
 			}
@@ -277,15 +305,120 @@ func c05DumpProfiles(h *vHarness, ps *c05Profiles, must map[int]int, home map[in
 	}
 }
 
+// the informer's truth after an event, per uid: 0 = must be absent from every profile, 1 = must be listed, 2 = no demand
+func c05MustAfterAdd(kind int, o *c05RObj) int {
+	switch {
+	case kind == 0 && c05Live(o):
+		return 1
+	case c05Live(o):
+		return 2 // an add event the plugin handlers cannot read is as good as not delivered
+	}
+	return 0
+}
+
+func c05MustAfterUpd(must int, valid, unreadable bool, old, nw *c05RObj) (int, string) {
+	switch {
+	case unreadable:
+		return must, "upd:unreadable-shape"
+	case c05Live(nw):
+		return 1, "upd:live"
+	case valid && old.available():
+		if c05Terminated(nw) {
+			return 0, "upd:available->terminated"
+		}
+		return 0, "upd:available->unassigned"
+	case must == 0:
+		return 0, "upd:stays-absent"
+	}
+	return 2, "upd:no-demand"
+}
+
+const c05LagCases = 6
+
+// DIRECTED stream (known finding C05:profile-index-dangling:lagging-listener): informer listeners are delivered to
+// independently, so the plugin listener of one profile may be a whole event behind the scheduler-wide handler.
+// add(r Available) to everyone; Update(r, still Available) and Delete(r) are processed by the scheduler-wide handler and
+// by the other profiles' plugin listeners; only then the lagging plugin listener handles the Update and its Delete.
+// k: one / two profiles, which profile lags, edit or resync update, object or tombstone delete.
+func c05LaggingCase(t *testing.T, h *vHarness, r *vRand, k int) {
+	np := 1 + k%2
+	lag := 1
+	if np == 2 {
+		lag = 1 + (k/2)%2
+	}
+	delKind := k / 2 % 2
+	if np == 2 {
+		delKind = k / 4 % 2
+	}
+	ps := c05NewProfiles(t, np)
+	h.Op("mnew %d", np)
+	h.Tag(fmt.Sprintf("lagging:profiles:%d", np))
+	home := map[int]int{1: 2}
+	must := map[int]int{}
+	o := c05GenRObj(r, 1)
+	o.term = false
+	o.node, o.phase = 2, 1
+	ord := strconv.Itoa(np+1) + " " + vIntsI(r.Perm(np+1))
+	h.Op("madd 0 1 %s %s", o.line(), ord)
+	add := c05ObjOfKind(0, o, true)
+	for _, tk := range strings.Fields(ord)[1:] {
+		role, _ := strconv.Atoi(tk)
+		ps.deliveries[role].OnAdd(add, false)
+	}
+	must[1] = c05MustAfterAdd(0, o)
+	c05DumpProfiles(h, ps, must, home)
+
+	nw := *o
+	if k%3 != 0 { // an edit of the status (k%3 == 0: a resync with the identical object)
+		nw.st[0] = c05Amount(r, 0, true)
+	}
+	oo, no := c05ObjOfKind(0, o, true), c05ObjOfKind(0, &nw, true)
+	dobj := c05ObjOfKind(delKind, &nw, true)
+	upd := func(role int) {
+		h.Op("mto %d upd 0 0 1 %s %s", role, o.line(), nw.line())
+		ps.deliveries[role].OnUpdate(oo, no)
+	}
+	del := func(role int) {
+		h.Op("mto %d del %d %s", role, delKind, nw.line())
+		ps.deliveries[role].OnDelete(dobj)
+	}
+	// the listeners that keep up: Update ...
+	for role := 0; role <= np; role++ {
+		if role != lag {
+			upd(role)
+			c05DumpProfiles(h, ps, must, home) // informer truth still: live (the Update), listed everywhere
+		}
+	}
+	// ... and Delete
+	must[1] = 0
+	for role := 0; role <= np; role++ {
+		if role != lag {
+			del(role)
+			c05DumpProfiles(h, ps, must, home) // the scheduler-wide handler (role 0, first) removed it from EVERY cache
+		}
+	}
+	// the lagging plugin listener
+	upd(lag)
+	c05DumpProfilesLag(h, ps, must, home, lag)
+	del(lag)
+	c05DumpProfilesLag(h, ps, must, home, lag)
+	h.Nontrivial()
+}
+
 func TestVerifC05Profiles(t *testing.T) {
 	h := vOpen("C05")
 	if h == nil {
 		t.Skip("VERIF_OUT not set")
 	}
 	n := h.N(1200, 30000)
-	for idx := 0; idx < n; idx++ {
+	for idx := 0; idx < n+c05LagCases; idx++ {
 		r := h.Begin(idx)
 		if r == nil {
+			continue
+		}
+		if idx >= n {
+			c05LaggingCase(t, h, r, idx-n)
+			h.End()
 			continue
 		}
 		np := []int{1, 2, 2, 2, 2, 3, 3}[r.Intn(7)]
@@ -382,13 +515,7 @@ func TestVerifC05Profiles(t *testing.T) {
 					obj := c05ObjOfKind(kind, o, valid[u])
 					deliver(ord, func(hd cache.ResourceEventHandler) { hd.OnAdd(obj, false) })
 					exists[u], cur[u] = true, o
-					if kind == 0 && c05Live(o) {
-						must[u] = 1
-					} else if c05Live(o) {
-						must[u] = 2 // an add event the handlers cannot read is as good as not delivered
-					} else {
-						must[u] = 0
-					}
+					must[u] = c05MustAfterAdd(kind, o)
 				} else if r.Chance(1, 4) { // DELETE
 					o := cur[u]
 					kind := []int{0, 0, 0, 1, 1, 1, 1, 2, 3}[r.Intn(9)]
@@ -471,27 +598,12 @@ func TestVerifC05Profiles(t *testing.T) {
 					oo, no := c05ObjOfKind(ko, old, valid[u]), c05ObjOfKind(kn, &nw, valid[u])
 					deliver(ord, func(hd cache.ResourceEventHandler) { hd.OnUpdate(oo, no) })
 					cur[u] = &nw
-					switch {
-					case ko != 0 || kn != 0:
-						h.Tag("upd:unreadable-shape")
-					case c05Live(&nw):
-						must[u] = 1
-						h.Tag("upd:live")
-					case valid[u] && old.available():
-						if must[u] != 0 {
-							deletions++
-						}
-						must[u] = 0
-						if c05Terminated(&nw) {
-							h.Tag("upd:available->terminated")
-						} else {
-							h.Tag("upd:available->unassigned")
-						}
-					case must[u] == 0:
-						h.Tag("upd:stays-absent")
-					default:
-						must[u] = 2
-						h.Tag("upd:no-demand")
+					before := must[u]
+					var tag string
+					must[u], tag = c05MustAfterUpd(before, valid[u], ko != 0 || kn != 0, old, &nw)
+					h.Tag(tag)
+					if before != 0 && must[u] == 0 {
+						deletions++
 					}
 				}
 				c05DumpProfiles(h, ps, must, home)
@@ -585,5 +697,110 @@ func TestVerifC05Profiles(t *testing.T) {
 		"(created unscheduled / placed / terminated; scheduled, edited, Waiting, ended, rolled back, resurrected, resync; deleted as object or " +
 		"tombstone; unreadable object shapes; objects without TTL) delivered to every captured handler in a drawn order, pod informer events " +
 		"to every profile, assumes in one profile; non-trivial = >=2 profiles and at least one cached reservation removed (deleted, ended or " +
-		"rolled back); distinct by op lines")
+		"rolled back); plus 6 directed cases (1 / 2 profiles) where one profile's plugin listener is a whole event behind the scheduler-wide " +
+		"handler (known finding lagging-listener); distinct by op lines")
+}
+
+// the six lifecycle states of the exhaustive stream
+func c05ProfState(o *c05RObj, st, node int) {
+	switch st {
+	case 0:
+		o.node, o.phase = 0, 0
+	case 1:
+		o.node, o.phase = node, 1
+	case 2:
+		o.node, o.phase = node, 2
+	case 3:
+		o.node, o.phase = node, 3
+	case 4:
+		o.node, o.phase = node, 4
+	default:
+		o.node, o.phase = 0, 4
+	}
+}
+
+// "profx" (thorough tier): EVERY lifecycle path add(a) -> update(a->b) -> update(b->c) -> delete(c) over the six states
+// {unassigned, Available, Waiting, Succeeded, Failed, Failed-without-node} x {valid, no TTL} x {object, tombstone delete}
+// x three listener orders (global first / plugins first / between the two plugins), two profiles; paths that clear the
+// node name of anything but a valid Available reservation are skipped (see assumptions: nothing could clean them up).
+func TestVerifC05ProfilesExhaustive(t *testing.T) {
+	h := vOpen("C05")
+	if h == nil {
+		t.Skip("VERIF_OUT not set")
+	}
+	orders := []string{"3 0 1 2", "3 1 2 0", "3 1 0 2"}
+	total := 6 * 6 * 6 * 2 * 2 * 3
+	for idx := 0; idx < total; idx++ {
+		x := idx
+		a, b, c := x%6, x/6%6, x/36%6
+		x /= 216
+		valid, delKind, ord := x%2 == 0, x/2%2, orders[x/4%3]
+		path := [][2]int{{a, b}, {b, c}}
+		skip := false
+		for _, tr := range path {
+			clears := tr[0] >= 1 && tr[0] <= 4 && (tr[1] == 0 || tr[1] == 5)
+			if clears && !(valid && tr[0] == 1) {
+				skip = true
+			}
+		}
+		if skip {
+			continue
+		}
+		r := h.Begin(idx)
+		if r == nil {
+			continue
+		}
+		ps := c05NewProfiles(t, 2)
+		h.Op("mnew 2")
+		home := map[int]int{1: 2}
+		must := map[int]int{}
+		o := c05GenRObj(r, 1)
+		o.term = false
+		c05ProfState(o, a, 2)
+		deliver := func(f func(hd cache.ResourceEventHandler)) {
+			for _, tk := range strings.Fields(ord)[1:] {
+				role, _ := strconv.Atoi(tk)
+				f(ps.deliveries[role])
+			}
+		}
+		h.Op("madd 0 %d %s %s", vB(valid), o.line(), ord)
+		obj := c05ObjOfKind(0, o, valid)
+		deliver(func(hd cache.ResourceEventHandler) { hd.OnAdd(obj, false) })
+		must[1] = c05MustAfterAdd(0, o)
+		c05DumpProfiles(h, ps, must, home)
+		cur := o
+		removed := false
+		for _, tr := range path {
+			nw := *cur
+			c05ProfState(&nw, tr[1], 2)
+			h.Op("mupd 0 0 %d %s %s %s", vB(valid), cur.line(), nw.line(), ord)
+			oo, no := c05ObjOfKind(0, cur, valid), c05ObjOfKind(0, &nw, valid)
+			deliver(func(hd cache.ResourceEventHandler) { hd.OnUpdate(oo, no) })
+			before := must[1]
+			var tag string
+			must[1], tag = c05MustAfterUpd(before, valid, false, cur, &nw)
+			h.Tag("profx:" + tag)
+			if before != 0 && must[1] == 0 {
+				removed = true
+			}
+			c05DumpProfiles(h, ps, must, home)
+			cur = &nw
+		}
+		h.Op("mdel %d %s %s", delKind, cur.line(), ord)
+		dobj := c05ObjOfKind(delKind, cur, valid)
+		deliver(func(hd cache.ResourceEventHandler) { hd.OnDelete(dobj) })
+		if must[1] != 0 {
+			removed = true
+		}
+		must[1] = 0
+		c05DumpProfiles(h, ps, must, home)
+		if removed {
+			h.Nontrivial()
+		}
+		h.Tag(fmt.Sprintf("profx:path:%d%d%d", a, b, c))
+		h.End()
+	}
+	h.Close("exhaustive: every lifecycle path add(a) -> update(a->b) -> update(b->c) -> delete(c) over 6 states x {valid, no TTL} x " +
+		"{object, tombstone} x 3 listener orders on two real profiles (paths clearing the node of anything but a valid Available " +
+		"reservation skipped); non-trivial = a cached reservation had to be removed from both profiles")
 }
